@@ -330,7 +330,7 @@ impl<'a> LiveEvents<'a> {
             }
 
             match raw {
-                Event::Scalar(val, mut style, anchor_id, tag) => {
+                Event::Scalar(val, style, anchor_id, tag) => {
                     if matches!(style, ScalarStyle::Folded)
                         && span.start.col() == 0
                         && !val.trim().is_empty()
@@ -340,13 +340,6 @@ impl<'a> LiveEvents<'a> {
 
                     let tag_s = SfTag::from_optional_cow(&tag);
 
-                    if val.is_empty()
-                        && anchor_id != 0
-                        && matches!(style, ScalarStyle::SingleQuoted | ScalarStyle::DoubleQuoted)
-                    {
-                        // Normalize: anchored empty scalars should behave like plain empty (null-like)
-                        style = ScalarStyle::Plain;
-                    }
                     let ev = Ev::Scalar {
                         value: val,
                         tag: tag_s,
